@@ -17,7 +17,8 @@ EXPLANATION = (
     "path, before the callback runs. Not decided: the drain clause at quiescence and the liveness clause under arbitrary "
     "interleavings."
     ' (R12) every handler of dispatch that acknowledges the delivery itself also forgets its entry in unacknowledged_messages; (R13) the retention timer of an orphaned reply acknowledges the reply retained when it fires (data-derived from orphaned_responses), not the message captured when it was armed.'
-    ' (R14) in the arm of handle_error that tears a failed fan-out down for a retry, the retry event is published before the held branch events are released.')
+    ' (R14) in the arm of handle_error that tears a failed fan-out down for a retry, the retry event is published before the held branch events are released.'
+    ' (R15) the id under which dispatch retains a delivery is never None (a message without a message id is given one or refused); reported on the current tree as D76.')
 RULE_TEXT = ("obligation = one (entry, rule) pair for the path rules (all CFG paths of the entry, fixpoint over a finite domain) or one "
              "call/store site for the site rules; non-trivial = distinct (rule, site)")
 
@@ -292,6 +293,8 @@ def r7(chk, ctx):
 
 
 def run(chk, ctx):
+    from . import round5
+    round5.retained_delivery_has_an_id(chk, ctx, "C03.R15")   # a delivery retained under None can be acknowledged by another event
     from . import generic
     generic.definite_assignment(chk, ctx, ['event_dispatcher'], "C03.DA")   # no local is read before it is bound (UnboundLocalError = an arbitrary exception)
     p = ctx.protocol()
